@@ -135,4 +135,81 @@ theorem EA_explicit (s : Sys) (ok : NodeOK s.a) : EA s = excess s.a s.b := by
   simp only [exc, ho, hi, stIn_isNone, isTRAR, Option.some_beq_some]
   rw [Bool.and_comm]
 
+/-! ### statistics filters, on reachable states -/
+
+theorem raa_tokF {l : List Msg} (id : Nat) (h : (l.filterMap (tokF id)).contains .raa = true) : Msg.raa ∈ l := by
+  simp only [List.contains_iff_mem, List.mem_filterMap] at h
+  obtain ⟨m, hm, e⟩ := h
+  cases m with
+  | raa => exact hm
+  | add id' amt => simp only [tokF] at e; split at e <;> cases e
+  | cs c => cases e
+  | fulfill _ => cases e
+  | fail _ => cases e
+
+theorem rem_tokB {l : List Msg} (id : Nat) (ok : Bool) (h : (l.filterMap (tokB id)).contains (.rem ok) = true) :
+    Msg.fulfill id ∈ l ∨ Msg.fail id ∈ l := by
+  simp only [List.contains_iff_mem, List.mem_filterMap] at h
+  obtain ⟨m, hm, e⟩ := h
+  cases m with
+  | raa => cases e
+  | add id' amt => cases e
+  | cs c => cases e
+  | fulfill id' =>
+    simp only [tokB] at e
+    split at e
+    · rename_i hid; subst hid; exact Or.inl hm
+    · cases e
+  | fail id' =>
+    simp only [tokB] at e
+    split at e
+    · rename_i hid; subst hid; exact Or.inr hm
+    · cases e
+
+/-- HTLCs `a` offered, `a` sizing its next HTLC on `b`'s commitment -/
+theorem stats_offered {s : Sys} (hg : GoodA s) (oka : NodeOK s.a) (okb : NodeOK s.b) (ha : Amt s)
+    (hraa : Msg.raa ∉ s.fullAB) :
+    ∀ y ∈ s.b.inb, ∀ u, y.st.inNextStats true u = true →
+      ∃ x ∈ s.a.outb, x.id = y.id ∧ x.amt = y.amt ∧ x.st.inNextStats false true = true := by
+  intro y hy u hu
+  have f := good_stats_offered _ (hg y.id)
+  have hi : (cfgA s y.id).i = some y.st := stIn_of_mem okb.sIn hy
+  have hf : (cfgA s y.id).fwd.contains .raa = false := by
+    cases hc : (cfgA s y.id).fwd.contains .raa with
+    | false => rfl
+    | true => exact absurd (raa_tokF y.id hc) hraa
+  rw [hf, hi, Bool.false_or] at f
+  rw [in_stats_flag y.st true u false] at hu
+  simp only [hu, Bool.not_true, Bool.false_or] at f
+  cases ho : (cfgA s y.id).o with
+  | none => rw [ho] at f; cases f
+  | some st =>
+    rw [ho] at f
+    obtain ⟨x, hx, e1, e2⟩ := mem_of_stOut (show stOut s.a.outb y.id = some st from ho)
+    exact ⟨x, hx, e1, ha.a1 x hx y hy e1, by rw [e2]; exact f⟩
+
+/-- HTLCs `b` offered (inbound at `a`), `a` sizing its next HTLC on `b`'s commitment -/
+theorem stats_received {s : Sys} (hg' : GoodA s.swap) (oka : NodeOK s.a) (okb : NodeOK s.b) (ha' : Amt s.swap) :
+    ∀ y ∈ s.b.outb, Msg.fulfill y.id ∉ s.fullAB → Msg.fail y.id ∉ s.fullAB → y.st.inNextStats true false = true →
+      ∀ u, ∃ x ∈ s.a.inb, x.id = y.id ∧ x.amt = y.amt ∧ x.st.inNextStats false u = true := by
+  intro y hy h1 h2 hu u
+  have f := good_stats_received _ (hg' y.id)
+  have ho : (cfgA s.swap y.id).o = some y.st := stOut_of_mem okb.sOut hy
+  have hb : ∀ ok, (cfgA s.swap y.id).bwd.contains (.rem ok) = false := by
+    intro ok
+    cases hc : (cfgA s.swap y.id).bwd.contains (.rem ok) with
+    | false => rfl
+    | true =>
+      rcases rem_tokB (l := s.fullAB) y.id ok hc with h | h
+      · exact absurd h h1
+      · exact absurd h h2
+  rw [hb true, hb false, ho, Bool.false_or, Bool.false_or] at f
+  simp only [hu, Bool.not_true, Bool.false_or] at f
+  cases hi : (cfgA s.swap y.id).i with
+  | none => rw [hi] at f; cases f
+  | some st =>
+    rw [hi] at f
+    obtain ⟨x, hx, e1, e2⟩ := mem_of_stIn (show stIn s.a.inb y.id = some st from hi)
+    exact ⟨x, hx, e1, (ha'.a1 y hy x hx e1.symm).symm, by rw [e2, in_stats_flag st false u false]; exact f⟩
+
 end Ldk.Chan
